@@ -65,3 +65,12 @@ Example C13_nonvacuous :
   exists l, run_shared [] w_td w_dsf w_doc_op w_ops_ok w_ir_ok = Ok l /\ List.length l = 5.
 Proof. exact C13_nonvacuous_lemma. Qed.
 Print Assumptions C13_nonvacuous.
+
+(* the docstring premise discharged for the DocEmit model of emit.docstring (any width, any style):
+   the full statement with the concrete docstring layer *)
+From DT Require DocEmit DocEmitPure.
+Theorem C13_with_docemit : forall w st pt td dsf ops i,
+    run_shared pt td dsf (DocEmitPure.doc_op_of w st) ops i
+    = run_fresh pt td dsf (DocEmitPure.doc_op_of w st) ops i.
+Proof. intros w st pt td dsf ops i. exact (C13_lemma pt td dsf _ (DocEmitPure.emit_docstring_doc_pure w st) ops i). Qed.
+Print Assumptions C13_with_docemit.
